@@ -8,8 +8,21 @@ BASE_ASSUMPTIONS = [
     "values are small integers / NULL in the specification and the same values as f64/f32/i32/i64/Option<_> in the "
     "code; 'up to rounding' is |got-want| <= 1e-9*max(1,|want|) for f64 outputs, 2e-6 for f32, exact for integer-valued "
     "kinds (DESIGN 3.3)",
-    "numeric accuracy on non-integer data, f32 accumulation, overflow to +-inf are outside the specification (DESIGN 10)",
+    "other units of measurement (Laws1.tla / Laws2.tla: 1.3e-4, 123467.8, 4e8 for i32, 1.5e18 for i64 ...) are compared to "
+    "1e-6 relative to the magnitude of the statistic's terms: they look for overflow, absorption and absolute thresholds, "
+    "not for the last digits; last-digit accuracy on non-integer data and overflow to +-inf stay outside (DESIGN 10)",
 ]
+
+
+def laws1(ctx):
+    """Laws1.tla: TLC checks homogeneity of every one-series kernel and emits the degree table."""
+    r = ctx.tlc("laws1", "MCLaws1", "MCLaws1_quick.cfg" if ctx.quick else "MCLaws1_thorough.cfg", workers=8, timeout=3000)
+    return ["--laws", r["emitted"]]
+
+
+def laws2(ctx):
+    r = ctx.tlc("laws2", "MCLaws2", "MCLaws2_quick.cfg" if ctx.quick else "MCLaws2_thorough.cfg", workers=8, timeout=3000)
+    return ["--laws", r["emitted"]]
 
 
 def roll_sim_num(ctx, quick, thorough):
